@@ -605,6 +605,20 @@ func (x *clientExec) doLateOp(t []string) string {
 	go func() { done <- x.c.Do(m, f) }()
 	how := "after-callback"
 	var err error
+	// the request on the wire means the transaction is registered: only then does the clock of this op start
+	for start := time.Now(); time.Since(start) < 10*time.Second; time.Sleep(50 * time.Microsecond) {
+		x.conn.mu.Lock()
+		seen := false
+		for _, w := range x.conn.writes {
+			if len(w) >= 20 && bytes.Equal(w[8:20], m.TransactionID[:]) {
+				seen = true
+			}
+		}
+		x.conn.mu.Unlock()
+		if seen || len(done) > 0 {
+			break
+		}
+	}
 	select {
 	case err = <-done:
 		if err != nil { // Start failed (duplicate id, scripted write failure): nothing to wait for
